@@ -8,6 +8,8 @@ HOOKS = dict(
     add_only=True,
 )
 
+_ENUM_NOTE = " In addition every received subset of several dozen small codes is enumerated completely (both APIs, with/without finish), symbol lengths are swept (quick: multiples of 512 +-1 and protocol sizes; thorough: every length 1..65536), rare heavy scenarios are generated (deep staircase unroll over ~12000 symbols, very high rate codes with k >= 256, neighbour sessions, nested calls from callbacks), and the thorough tier adds a coverage-guided libFuzzer phase on the same interpreter."
+
 ENGINES = [
     dict(name="hist_fuzz", path="/verif/harness/hist/hist_fuzz.cpp", serves_properties=["C01", "C03", "C04", "C06", "C07", "C08", "C10", "C11"],
          kind_free_text="libFuzzer (clang, ASan+UBSan) on the same structure-aware decoder and interpreter; thorough tier only"),
@@ -70,3 +72,9 @@ TEXT = {
     "C18": dict(level="exploration: generated operation sequences over dense matrices with a bit-matrix model compared cell by cell after every operation; solver on constructed systems of known rank with symbol right-hand sides; popcount helpers over all 16-bit patterns in every position",
                 design_ref="DESIGN.md section 6 C18", note="solver called with non-NULL right-hand sides and a caller-built control block; rank decided by the harness's own elimination", technique="stateful model-based property testing (rapidcheck) plus differential solver test against own GF(2) elimination"),
 }
+
+for _p in ("C01", "C02", "C03", "C04", "C06", "C07", "C08", "C10", "C11"):
+    TEXT[_p]["level"] += _ENUM_NOTE
+TEXT["C03"]["level"] += " The thorough tier also sweeps every repair count n-k in 3..49999 with a cheap pattern that needs the ML pass."
+TEXT["C12"]["level"] += " Interleaved and solo executions both run in forked pristine processes; siblings differing in one parameter (seed, m, k with equal k*L, n with equal k, L+1), noisy neighbours with thousands of duplicate submissions, 2D-parity neighbours, chatty (verbosity 2) neighbours and nested steps from inside callbacks are generated."
+
